@@ -36,6 +36,17 @@ pub fn expand(input: &DeriveInput, trait_name: &'static str) -> Result<TokenStre
             field_types,
             ..
         } = multi_field_data.clone();
+        // A type passed through a `macro_rules!` `$t:ty` fragment arrives in an invisible group,
+        // which must not make it a different type.
+        let field_types: Vec<_> = field_types
+            .into_iter()
+            .map(|mut ty| {
+                while let syn::Type::Group(group) = ty {
+                    ty = &group.elem;
+                }
+                ty
+            })
+            .collect();
         for ref_type in variant_info.ref_types() {
             variants_per_types
                 .entry((ref_type, field_types.clone()))
